@@ -124,6 +124,62 @@ theorem ext_bpolyRoundTrip_define {q p n : Nat} {g : List Nat} (hq : q < 2 ^ 64)
   have := ext_bpoly_roundtrip M hn63 L hL hx hy hxy hxw hyw ord ideal hf
   rwa [bToStrN_default] at this
 
+/-- `UPolyRoundTrip` clause 2 (additivity) over every prime field `primefield.Define` returns -/
+theorem prime_upolyAdditive_define {p : Nat} (hq : p < 2 ^ 64)
+    (hd : Define.prime p = .ok (.prime p)) {v : String} (hv : AdmissibleName v)
+    (mod : Option (UPoly Nat)) (hm : ModOK (primeSpec p) mod) {f₁ f₂ : UPoly Nat}
+    (hf₁ : UValid (primeSpec p) { F := primeOps p, varName := v, modulus := mod } f₁)
+    (hf₂ : UValid (primeSpec p) { F := primeOps p, varName := v, modulus := mod } f₂)
+    (hl₁ : f₁.length ≤ 2 ^ 63) (hl₂ : f₂.length ≤ 2 ^ 63) :
+    ∃ g, UPoly.parse { F := primeOps p, varName := v, modulus := mod }
+        (UPoly.toStr (primeOps p) v f₁ ++ " + " ++ UPoly.toStr (primeOps p) v f₂) = .ok (some g) ∧
+      UPoly.equal (primeOps p) g (UPoly.add (primeOps p) f₁ f₂) = true := by
+  obtain ⟨_, hp, h32⟩ := (C03.define_prime_iff hq _).1 hd
+  exact prime_upoly_additive hp h32 hv mod hm hf₁ hf₂ hl₁ hl₂
+
+/-- … over every binary field `binfield.Define` returns -/
+theorem bin_upolyAdditive_define {q n m : Nat} {w : String} (hq : q < 2 ^ 64)
+    (hd : Define.bin Gen.dbText q = .ok (.bin n m)) (hw : AdmissibleName w)
+    {v : String} (hv : AdmissibleName v) (hun : Unconfusable v w)
+    (mod : Option (UPoly Nat)) (hm : ModOK (binSpec n m w) mod) {f₁ f₂ : UPoly Nat}
+    (hf₁ : UValid (binSpec n m w) { F := binOps n m w, varName := v, modulus := mod } f₁)
+    (hf₂ : UValid (binSpec n m w) { F := binOps n m w, varName := v, modulus := mod } f₂)
+    (hl₁ : f₁.length ≤ 2 ^ 63) (hl₂ : f₂.length ≤ 2 ^ 63) :
+    ∃ g, UPoly.parse { F := binOps n m w, varName := v, modulus := mod }
+        (UPoly.toStr (binOps n m w) v f₁ ++ " + " ++ UPoly.toStr (binOps n m w) v f₂) =
+          .ok (some g) ∧
+      UPoly.equal (binOps n m w) g (UPoly.add (binOps n m w) f₁ f₂) = true := by
+  obtain ⟨n', m', cs, he, _, h1, h32, _, _, ⟨hm1, hm2⟩, _, _, hF, _⟩ :=
+    C01.define_bin_lawful hq hd
+  injection he with e1 e2
+  subst e1 e2
+  exact bin_upoly_additive (BinField.binLawful h1 (by omega) hm1 hm2 w) (fun _ => Iff.rfl)
+    hw (by omega) hv hun mod hm hf₁ hf₂ hl₁ hl₂
+
+/-- … over every extension field `extfield.Define` returns -/
+theorem ext_upolyAdditive_define {q p n : Nat} {g : List Nat} (hq : q < 2 ^ 64)
+    (hd : Define.ext Gen.dbText q = .ok (.ext p n g))
+    {v : String} (hv : AdmissibleName v) (hun : Unconfusable v "a")
+    (mod : Option (UPoly (UPoly Nat))) (hm : ModOK (extSpec p n g) mod)
+    {f₁ f₂ : UPoly (UPoly Nat)}
+    (hf₁ : UValid (extSpec p n g) { F := extOps p n g, varName := v, modulus := mod } f₁)
+    (hf₂ : UValid (extSpec p n g) { F := extOps p n g, varName := v, modulus := mod } f₂)
+    (hl₁ : f₁.length ≤ 2 ^ 63) (hl₂ : f₂.length ≤ 2 ^ 63) :
+    ∃ g', UPoly.parse { F := extOps p n g, varName := v, modulus := mod }
+        (UPoly.toStr (extOps p n g) v f₁ ++ " + " ++ UPoly.toStr (extOps p n g) v f₂) =
+          .ok (some g') ∧
+      UPoly.equal (extOps p n g) g' (UPoly.add (extOps p n g) f₁ f₂) = true := by
+  obtain ⟨p', n', g', hF, h32, he, hp, hqe, hn, _, M, _, _, hF2, L, hL, _⟩ :=
+    C01.define_ext_lawful hq hd
+  injection he with e1 e2 e3
+  subst e1 e2 e3
+  have hn63 : n ≤ 2 ^ 63 := by
+    have h1 : 2 ^ n ≤ p ^ n := Nat.pow_le_pow_left hp.two_le n
+    have h2 : 2 ^ n < 2 ^ 64 := by omega
+    have := (Nat.pow_lt_pow_iff_right (by norm_num : 1 < 2)).1 h2
+    omega
+  exact ext_upoly_additive M hn63 L hL hv hun mod hm hf₁ hf₂ hl₁ hl₂
+
 -- non-vacuity (as in `Props/C01.lean`: the lookup fact of the real database as hypothesis)
 example (h : Conway.lookupIn Gen.dbText 2 3 = .ok [1, 1, 0, 1]) :
     ∃ g, UPoly.parse { F := binOps 3 11 "b", varName := "X", modulus := none }
